@@ -333,6 +333,36 @@ Definition multiFillCSVName (requested digs : bytes) : bytes :=
 Definition gobFileName (ps : bytes) : res bytes :=
   match Path ps with Ok fn => Ok (fn ++ str_dotgob) | Err => Err end.
 
+(* WriteMetadataToDisk: "%s_Metadata_%s_%d_%d.txt" (ParentType comes from the document) *)
+Definition str__Metadata_ : bytes := [0x5F;0x4D;0x65;0x74;0x61;0x64;0x61;0x74;0x61;0x5F].
+Definition str_dottxt : bytes := [0x2E;0x74;0x78;0x74].
+Definition metadataFileName (fnBase parentType digs1 digs2 : bytes) : bytes :=
+  PathOr fnBase str_file ++ str__Metadata_ ++ PathOr parentType str_metadata ++ US ++ digs1 ++ US ++ digs2 ++ str_dottxt.
+
+(* api/split.go writePageSpansSplitAlongBookmarks: for i, bm := range bms: name from
+   sanitize.Path(bm.Title) (else "bookmark_<i+1>"), splitOutPath = Join(outDir, name+".pdf"),
+   writePageSpan; the first write error aborts the loop (earlier parts stay).  fails = the
+   paths whose write fails (arbitrary in the theorem).  Returns (paths written, success). *)
+Fixpoint splitBookmarksFrom (fails : bytes -> bool) (outDir : bytes) (i : N) (titles : list bytes)
+  : list bytes * bool :=
+  match titles with
+  | [] => ([], true)
+  | t :: rest =>
+    let p := join2 outDir (bookmarkFileName i t) in
+    if fails p then ([], false)
+    else let r := splitBookmarksFrom fails outDir (i + 1) rest in (p :: fst r, snd r)
+  end.
+Definition splitAlongBookmarks (fails : bytes -> bool) (outDir : bytes) (titles : list bytes) :=
+  splitBookmarksFrom fails outDir 0 titles.
+Fixpoint bookmarkPathsFrom (outDir : bytes) (i : N) (titles : list bytes) : list bytes :=
+  match titles with
+  | [] => []
+  | t :: rest => join2 outDir (bookmarkFileName i t) :: bookmarkPathsFrom outDir (i + 1) rest
+  end.
+(* harness instance: pdfcpu.WriteReader stages into "."+base+".tmp-"+16 hex digits (22 bytes
+   longer than the target name); that name must fit NAME_MAX *)
+Definition stagedTooLong (p : bytes) : bool := Nat.ltb 255 (length (baseOf p) + 22).
+
 (* ------------------------------------------------------------------ harness helpers *)
 (* code points in [lo, lo+n) whose classification is not the default, as (r, flags, up):
    flags = 1*isSpace + 2*isControl, up = toUpper r if that is ASCII and differs from r, else 0 *)
